@@ -398,6 +398,8 @@ cppcms::http::content_type &request::lazy_content_type()
 
 int request::on_content_start()
 {
+	if(d->content_length < 0)
+		return 400;
 	if(d->content_length == 0)
 		return 0;
 	if(lazy_content_type().is_multipart_form_data()) {
